@@ -130,3 +130,60 @@ type X3Profile struct{}
 
 func (X3Profile) GetName() string             { return X3Name }
 func (X3Profile) GetClaims() psatoken.IClaims { return NewX3Claims() }
+
+// ---- X4: profile-1 rules, profile carried under key 265 / JSON member "my-profile" ----
+type X4Claims struct {
+	Profile *eat.Profile `cbor:"265,keyasint" json:"my-profile"`
+	psatoken.P1Claims
+}
+
+func (o X4Claims) MarshalCBOR() ([]byte, error) { return encoding.SerializeStructToCBOR(xem, &o) }
+func (o *X4Claims) UnmarshalCBOR(data []byte) error {
+	return encoding.PopulateStructFromCBOR(xdm, data, o)
+}
+func (o X4Claims) MarshalJSON() ([]byte, error)     { return encoding.SerializeStructToJSON(&o) }
+func (o *X4Claims) UnmarshalJSON(data []byte) error { return encoding.PopulateStructFromJSON(data, o) }
+func (o *X4Claims) Validate() error                 { return psatoken.ValidateClaims(o) }
+
+// ---- X5: a claims type without any profile field (registration must fail) ----
+type X5Claims struct {
+	psatoken.IClaims
+	Foo *int `cbor:"1,keyasint" json:"foo"`
+}
+
+// ---- X6: no profile field either, but with an embedded struct (tag discovery must recurse and still fail) ----
+type x6Common struct {
+	Bar *string `cbor:"2,keyasint" json:"bar"`
+}
+type X6Claims struct {
+	x6Common
+	psatoken.IClaims
+	Foo *int `cbor:"1,keyasint" json:"foo"`
+}
+
+// GenProfile is a profile registered under an arbitrary name with one of the claims kinds.
+type GenProfile struct{ Name, Kind string }
+
+func (g GenProfile) GetName() string { return g.Name }
+func (g GenProfile) GetClaims() psatoken.IClaims {
+	switch g.Kind {
+	case "X1":
+		n := g.Name
+		return &X1Claims{P1Claims: psatoken.P1Claims{Profile: &n,
+			SwComponents: &psatoken.SwComponents[*psatoken.SwComponent]{}, CanonicalProfile: g.Name}}
+	case "X2":
+		return &X2Claims{P2Claims: newP2Base(g.Name)}
+	case "X4":
+		p := eat.Profile{}
+		if err := p.Set(g.Name); err != nil {
+			panic(err)
+		}
+		return &X4Claims{Profile: &p, P1Claims: psatoken.P1Claims{
+			SwComponents: &psatoken.SwComponents[*psatoken.SwComponent]{}, CanonicalProfile: g.Name}}
+	case "X5":
+		return &X5Claims{}
+	case "X6":
+		return &X6Claims{}
+	}
+	panic("unknown kind " + g.Kind)
+}
